@@ -19,13 +19,17 @@ for _f in sorted(glob.glob(os.path.join(_D, "C*.json"))):
 
 # tools/conf/extra.json: per-property additions kept apart from the per-property files
 #   translators          appended to the property's translator list
+#   translator_sections  {translator: [sections]}: the sections of a shared translator whose failure concerns this property
 #   extra_prop_modules   further modules LinfaSpec.Props.<name> whose theorems are obligations of the property
 _x = os.path.join(_D, "extra.json")
 if os.path.exists(_x):
     for _p, _e in json.load(open(_x)).items():
         _c = CONF.setdefault(_p, {})
         for _k, _v in _e.items():
-            _c[_k] = list(_c.get(_k, [])) + [x for x in _v if x not in _c.get(_k, [])]
+            if isinstance(_v, dict):
+                _c[_k] = dict(_c.get(_k, {}), **_v)
+            else:
+                _c[_k] = list(_c.get(_k, [])) + [x for x in _v if x not in _c.get(_k, [])]
 
 _h = os.path.join(_D, "hooks.json")
 HOOK_COMMITS = json.load(open(_h)) if os.path.exists(_h) else []
